@@ -22,7 +22,7 @@ META = {
             "the table is re-derived from the Go source (go/ast) on every run and compared. "
             "Explored on the real implementation, every case in a CHILD process (value / error / recovered panic / fatal error / timeout observed from outside): "
             "(1) every universe built-in, every method of string/bytes/list/dict/set/time (several receivers: empty, frozen, mid-iteration, self-containing), struct, module, json/math/time members "
-            "x argument tuples from a pool of ~57 edge values (full product for arity 0-1, boundary sub-pool for arity 2 and a seeded sample with keyword arguments up to arity 4 in the quick tier; full product up to arity 3 in the thorough tier); "
+            "x argument tuples from a pool of ~58 edge values (quick tier: full product for arity 0-1, a 12-value boundary sub-pool for arity 2 (all callables) and arity 3 (one receiver per type), and a seeded sample with keyword arguments up to arity 4; thorough tier: full product up to arity 3); every returned value is checked for nil elements and then frozen, hashed and printed; "
             "(2) cyclic value graphs (fixed shapes + seeded random graphs) under str/repr/==/!=/</hash/freeze/json.encode/sorted/in/index/%-format/print, with the Coq model evaluated on the same heap "
             "(predicted class value/error/never-ends must equal the observed one); "
             "(3) source texts up to 64 KiB x FileOptions: 60+ nesting/chain/huge-literal generators at sizes up to the 64 KiB limit, generated valid programs, token-level mutations, byte soup, each with a finite step budget.",
@@ -201,7 +201,7 @@ def run(ctx):
     workers = "4" if quick else "6"
     jobs = {
         "calls": ["-workers", workers],
-        "cycles": ["-workers", workers, "-emit", "-n", "70" if quick else "2500"],
+        "cycles": ["-workers", workers, "-emit", "-n", "100" if quick else "2000"],
         "src": ["-workers", workers],
     }
     results = {}
@@ -303,8 +303,8 @@ Print stale.
     cov = {
         "evaluations": total,
         "distinct_nontrivial": len(cases) + sum(v for m in ("calls", "src") for k, v in counts[m].items() if k in ("value", "error")),
-        "rule": "calls: enumeration by index of (callable incl. receiver variant, argument tuple, keyword list) -- full product for arity 0-1 over the whole pool, arity 2 over the boundary sub-pool (quick) / full product arity<=3 (thorough, without the two unbounded-work values), seeded sample up to arity 4 with keywords; "
-                "cycles: 18 fixed shapes + seeded random graphs x 16 operations, each (graph, op) a separate case; src: every nesting generator x sizes {3,40,300,2000,(9000),max<=64KiB} x FileOptions (one combination per case in quick, all 64 in thorough) + seeded valid/mutated/byte-soup programs; "
+        "rule": "calls: enumeration by index of (callable incl. receiver variant, argument tuple, keyword list) -- full product for arity 0-1 over the whole pool, arity 2 (all callables) and arity 3 (one receiver variant per type) over the 12-value boundary sub-pool (quick) / full product arity<=2 for all callables and arity 3 for one receiver variant per type (thorough; without the two unbounded-work values and the self-containing struct whose printing is the known finding), seeded sample up to arity 4 with keywords; "
+                "cycles: 18 fixed shapes + seeded random graphs x 16 operations, each (graph, op) a separate case; src: every nesting generator x sizes {3,40,300,2000,(9000),max<=64KiB} x FileOptions (one combination per case in quick; thorough: all 64 combinations for sizes <= 300 and 8 combinations -- none, all, each option alone -- for the larger sizes) + seeded valid/mutated/byte-soup programs; "
                 "distinct = distinct Coq-evaluated (heap, op, class) terms + calls/sources that returned value-or-error",
         "counts_per_mode": counts, "distribution": dist, "samples": samples[:8],
         "outside_the_claim": {k: sorted(set(v))[:40] for k, v in outside.items()},
